@@ -103,7 +103,7 @@ func (in *Interp) bytesToTree(s *Str) (*JNode, bool) {
 		if s.G.Ctor == "json" || s.G.Ctor == "canon" {
 			return s.G.Args[0].(*JNode), true
 		}
-		return nil, false
+		return nil, false // other opaque bytes (hashes, garbage) are not JSON texts
 	case sBytes:
 		c, ok := s.Concrete()
 		if !ok {
@@ -571,7 +571,24 @@ func (in *Interp) toJSON(v value, t types.Type) (n *JNode, err *jsonErr) {
 			return &JNode{Kind: jNull}, nil
 		}
 		n := &JNode{Kind: jObj}
-		for _, e := range m.Entries {
+		entries := append([]*MapEntry{}, m.Entries...)
+		// encoding/json writes map members sorted by key
+		allConc := true
+		for _, e := range entries {
+			if ks, ok := e.K.(*Str); ok {
+				if _, c := ks.Concrete(); !c {
+					allConc = false
+				}
+			}
+		}
+		if allConc {
+			sort.SliceStable(entries, func(i, j int) bool {
+				a, _ := entries[i].K.(*Str).Concrete()
+				b, _ := entries[j].K.(*Str).Concrete()
+				return a < b
+			})
+		}
+		for _, e := range entries {
 			if e.Del {
 				continue
 			}
